@@ -419,10 +419,45 @@ def build(spec):
             hs.append(method(o['name'], **kw))
         for (nfi, payload) in lf['noformat']:
             L.add_no_format_frame_data(hs[nfi], payload)
+    kind = spec['write']['data_kind']
+    if kind in ('struct', 'hdf5'):
+        b.data = make_source(kind, b.data, spec['write'].get('source_opts', {}))
     return b
 
 
-def write(spec, tmpdir, built=None, fname='out.dlis', prior=None):
+def make_source(kind, datasets, opts):
+    """the same datasets as a structured array or an HDF5 file; opts: order (permutation seed), extra (unused
+    datasets), tmpdir"""
+    import random
+    names = list(datasets)
+    R = random.Random(opts.get('perm_seed', 0))
+    R.shuffle(names)
+    extra = opts.get('extra', 0)
+    n = next(iter(datasets.values())).shape[0] if datasets else 0
+    if kind == 'struct':
+        fields = []
+        for nm in names:
+            a = datasets[nm]
+            fields.append((nm, a.dtype) if a.ndim == 1 else (nm, a.dtype, a.shape[1:]))
+        for k in range(extra):
+            fields.insert(R.randrange(len(fields) + 1), (f'unused_{k}', np.float32))
+        arr = np.zeros(n, dtype=fields)
+        for nm in names:
+            arr[nm] = datasets[nm]
+        return arr
+    import h5py
+    path = os.path.join(opts['tmpdir'], opts.get('h5name', 'src.h5'))
+    if os.path.exists(path):
+        os.unlink(path)
+    with h5py.File(path, 'w') as f:
+        for nm in names:
+            f.create_dataset(nm if nm.startswith('/') else '/' + nm, data=np.ascontiguousarray(datasets[nm]))
+        for k in range(extra):
+            f.create_dataset(f'/unused/{k}', data=np.arange(n + 3, dtype=np.float32))
+    return path
+
+
+def write(spec, tmpdir, built=None, fname='out.dlis', prior=None, read_disk=False):
     """-> dict(status, error, data, records, flushes, built)"""
     out = {'status': 'err', 'error': None, 'data': None, 'records': [], 'flushes': [], 'built': None, 'stage': 'build'}
     path = os.path.join(tmpdir, fname)
@@ -444,7 +479,7 @@ def write(spec, tmpdir, built=None, fname='out.dlis', prior=None):
             kwargs['to_idx'] = w['to_idx']
         if w['data_kind'] != 'inline':
             kwargs['data'] = b.data
-        with Taps() as t:
+        with Taps(read_disk=read_disk) as t:
             try:
                 b.df.write(path, **kwargs)
             finally:
